@@ -14,7 +14,7 @@ use crate::shape::var_to_j;
 use crate::src::Src;
 use crate::syn::{gen_sentence, mutate};
 
-pub const RULE: &str = "histories of up to 60 operations (compile, parse, clone, drop, search through four conversion routes: owned Variable, Rcvar, &Rcvar, serde_json::Value) over a pool of 6 generated expressions (valid core and typed-function expressions, non-sentences, expressions failing at run time, by-functions) and 5 shared documents; model = a pure table: every search of a pair equals the reference evaluation and every earlier result of that pair, every compile/parse of a string gives the identical tree (offsets included) or identical error, clones behave like their source, shared documents serialise to their initial text at the end; non-trivial = the history repeats a pair after a different, failing search (distinct by history text)";
+pub const RULE: &str = "histories of up to 60 operations (compile, parse, clone, drop, search through four conversion routes: owned Variable, Rcvar, &Rcvar, serde_json::Value) over a pool of 6 generated expressions (valid core and typed-function expressions, non-sentences, expressions failing at run time, by-functions) and 5 shared documents; model = a pure table: every search of a pair equals the reference evaluation and every earlier result of that pair, every compile/parse of a string gives the identical tree (offsets included) or identical error, clones behave like their source, shared documents serialise to their initial text at the end; custom-history: the same kind of history on a runtime built by the case (CustomFunctions with fixed / variadic signatures, a closure overriding a built-in, with or without built-ins) with expressions compiled from it, cloned and rebuilt through Expression::new, every search compared with a closed-form model of the call; non-trivial = the history repeats a pair after a different, failing search (distinct by history text)";
 
 #[derive(Clone, Debug)]
 enum Outcome {
